@@ -469,6 +469,21 @@ def explore_idle(ctx, base, n):
                 ctx.distinct_add(("idle", repr(rp)))
             terms.append(f"(CIdle {clist(cases, '(option hsm * bool)')} {clist(got, '(bool * bool)')})")
             keep.append(rp)
+            # ready_path() (the gate of imports on HSM nodes): true only for a resident file; a released one gets exactly one restore request;
+            # an unknown answer (lfs failed, timed out, file missing) is NOT "resident"
+            for (c, h, r, s) in rows:
+                issued = []
+                orig_restore = W.io._lfs.hsm_restore
+                W.io._lfs.hsm_restore = lambda p_, _i=issued: _i.append(str(p_)) or True
+                try:
+                    rdy = W.io.ready_path(c.file.path)
+                finally:
+                    W.io._lfs.hsm_restore = orig_restore
+                ctx.count("ready_path")
+                if bool(rdy) != (s in lustre.RESIDENT):
+                    ctx.fail("C20:ready-path", f"ready_path() answered {rdy} for a file the file system reports as {s}: an import would {'hash a non-resident file' if rdy else 'wait for ever'}", rp)
+                if (len(issued) == 1) != (s == "released") or len(issued) > 1:
+                    ctx.fail("C20:ready-path", f"ready_path() issued {len(issued)} restore request(s) for a file in state {s}", rp)
             # open(): only while resident
             for (c, h, r, s) in rows[:2]:
                 try:
